@@ -21,7 +21,7 @@ pub fn run(ctx: &mut Ctx) {
     let cache = sorted_cache(&is);
     let judge = Judge { frame: true, reference: true };
     let mut case: u64 = 0;
-    let draws = ctx.n(30, 400);
+    let draws = ctx.n(60, 1500);
 
     // ---- random_bool_vector -----------------------------------------------------------------
     let mut sizes: Vec<i32> = (0..=12).collect();
